@@ -449,12 +449,16 @@ Case minimise(const PropertyEngine &pe, const Case &c0, const Violation &v, int 
       }
     }
     // 7. history cases: drop operations
-    if (cur.hist.kind == Json::OBJ && cur.hist.has("ops")) {
-      size_t n = cur.hist.at("ops").a.size();
+    for (const char *hk : {"steps", "ops"}) {
+      if (!(cur.hist.kind == Json::OBJ && cur.hist.has(hk)))
+        continue;
+      size_t n = cur.hist.at(hk).a.size();
+      if (n == 0)
+        continue;
       for (size_t chunk = std::max<size_t>(1, n / 2); chunk >= 1; chunk /= 2) {
-        for (size_t start = 0; start < cur.hist.at("ops").a.size();) {
+        for (size_t start = 0; start < cur.hist.at(hk).a.size();) {
           Case t = cur;
-          auto &ops = t.hist.ref("ops").a;
+          auto &ops = t.hist.ref(hk).a;
           size_t end = std::min(ops.size(), start + chunk);
           ops.erase(ops.begin() + start, ops.begin() + end);
           if (m.still_fails(t)) {
